@@ -165,8 +165,10 @@ struct ConcRun {
         std::vector<Scratch> sc(ntasks); for (auto& s : sc) s.init(R);
         std::vector<int> cur_kind(ntasks, -1); std::vector<std::pair<int, int>> ilv; ilv.reserve(1 << 16);
         sched.on_switch = [&](int from, int to) { if (ilv.size() < ilv.capacity()) ilv.push_back({cur_kind[(size_t) from], cur_kind[(size_t) to]}); };
-        for (size_t t = 0; t < ntasks; t++) { conc[t].digests.reserve(scripts[t].size() + 1); sched.add([this, t, &scripts, &sc, &conc, &cur_kind] { for (auto& op : scripts[t]) { cur_kind[t] = (int) (op.arg(0) % NKINDS); conc[t].digests.push_back(exec(op, sc[t])); } cur_kind[t] = -1; }); }
+        for (size_t t = 0; t < ntasks; t++) { conc[t].digests.reserve(scripts[t].size() + 1); sched.add([this, t, &scripts, &sc, &conc, &cur_kind] { int my_step = 0; tl_step_ptr = &my_step; for (auto& op : scripts[t]) { cur_kind[t] = (int) (op.arg(0) % NKINDS); conc[t].digests.push_back(exec(op, sc[t])); my_step++; } cur_kind[t] = -1; tl_step_ptr = nullptr; }); }
+        for (auto& op : plan.ops) if (op.kind == "SCHED") sched.set_list(op.s);   // explicit (minimised) schedule instead of the PRNG
         sched.run((uint64_t) plan.c("sched_seed", 1));
+        env.res.sched = sched.taken;
         env.count("probe:context_switches", sched.switches); env.count("probe:yield_points_passed", sched.global_yield);
         env.count("probe:yields_at_field_multiplication_hook", sched.hook_yields); env.count("probe:yields_at_random_or_hash_callback", sched.cb_yields);
         env.count("fault:preemption_inside_library_call", sched.switches);
@@ -189,7 +191,8 @@ struct ConcScenario : Scenario {
     const char* name() const override { return "conc"; }
     Plan generate(uint64_t seed, const std::map<std::string, int64_t>&) override {
         Rng r(seed); Plan p; p.scenario = name();
-        int tasks = r.range(2, 6); p.cfg["tasks"] = tasks; p.cfg["pswitch"] = r.chance(1, 5) ? 62 : r.range(2, 18);   // 62 = coarse schedule: preemption only at the random/hash callbacks p.cfg["sched_seed"] = (int64_t) (r.next() >> 1); p.cfg["setup_seed"] = (int64_t) (r.next() >> 1);
+        int tasks = r.range(2, 6); p.cfg["tasks"] = tasks; p.cfg["pswitch"] = r.chance(1, 5) ? 62 : r.range(2, 18);   // 62 = coarse schedule: preemption only at the random/hash callbacks
+        p.cfg["sched_seed"] = (int64_t) (r.next() >> 1); p.cfg["setup_seed"] = (int64_t) (r.next() >> 1);
         for (int t = 0; t < tasks; t++) { int n = r.range(2, 6); for (int i = 0; i < n; i++) p.ops.push_back({"T", {(int64_t) r.below(ConcRun::NKINDS), (int64_t) r.below(1000), (int64_t) r.below(1000), t}, {}}); }
         return p;
     }
